@@ -204,6 +204,15 @@ func Equal[T comparable](iters ...Iterator[T]) bool {
 // all of them.
 func Last[T any](iter Iterator[T], n int) []T {
 	buf := make([]T, n)
+	if n == 0 {
+		// Still consume iter; i%n below would divide by zero.
+		for {
+			_, ok := iter.Next()
+			if !ok {
+				return buf
+			}
+		}
+	}
 	i := 0
 	for {
 		item, ok := iter.Next()
